@@ -33,9 +33,9 @@ T = {
  "C20": ("tok", "proof", "reinit makes the stale fields dead: tokenize_from is independent of the previous state (all old states); buffer source close/open resets the cursor", TOK_TIE, TOK_NOTE,
          "Rocq/Coq proof (relational invariant) + translation tie + correspondence on pairs of uses"),
  "C05": ("split", "proof", "region bytes = the input slice at whole windows, ordered, whole samples; split = tokenizer o energy verdicts o blocks (composition theorem)",
-         "model Split/Split.v composed from the translated-and-tied tokenizer model, the exact energy decision, Duration.v and Reader.v; split() and AudioRegion.split() are tied by "
+         "model Split/Split.v composed from the translated-and-tied tokenizer model, the exact energy decision, Duration.v and Reader.v; the region time arithmetic (start, duration, end and the arguments split() passes to _make_audio_region) is translated on every run and proved equal to Split.region_start / region_duration / region_end (TieTimes.v); split() and AudioRegion.split() are tied by "
          "correspondence on synthesized audio (bytes and bit-exact float start/end/duration)", "trusted: Coq kernel; " + REALS + "; " + CORR,
-         "Rocq/Coq proof (composition of slicing lemmas) + correspondence"),
+         "Rocq/Coq proof (composition of slicing lemmas) + translation tie of the region times + correspondence"),
  "C06": ("split", "proof", "ms-grid exactness of the window counts by reflection on a finite grid (Flocq binary64, vm_compute lifted by forallb_forall); tolerance band lemma; accept <-> predicate",
          "Duration.v mirrors _duration_to_nb_windows and the parameter block of split(); tied on every run by translation (groups dur, split: _duration_to_nb_windows, _EPSILON and the program slice of "
          "split() that decides the window counts, helpers flattened, proved equal to Duration.nbw / split_params for all float inputs: TieDur.v, TieSplit.v) and by bit-exact correspondence on the ms grid and on random doubles "
